@@ -14,3 +14,11 @@ CHECKS = {
         'level_note': 'Trusted: rustc MIR dump of the real crate (repo toolchain), the MIR-to-SMT translator (validated on every run by pushing concrete inputs through the compiled functions, an exact reference and the translator itself), z3.',
     },
 }
+
+CHECKS['C05'] = {
+    'smt': [{'name': 'c05-arith', 'module': 'c05'}],
+    'technique': T + '; Kani/CBMC harnesses for the movement of assets and shares',
+    'bounds': 'E2: amounts, total supply, total assets all of i128 (non-negative totals), decimals offset 0..=10 by case split (quick tier: 0, 3, 10)',
+    'outside_claim': 'multi-step "no participant profits" follows from the per-operation rate monotonicity by induction (argument in DESIGN.md, not machine-checked); the underlying asset token is assumed SEP-41-correct',
+    'stubs_and_assumes': ['Vault::total_supply, Vault::total_assets = free non-negative integers', 'Vault::get_decimals_offset = each concrete offset'],
+}
